@@ -671,8 +671,13 @@ func reifyPrimitive(
 ) (reflect.Value, Error) {
 	// zero initialize value if val==nil
 	if isNil(val) {
-		v := pointerize(t, baseType, reflect.Zero(baseType))
-		return tryInitDefaults(v), nil
+		// no value: the zero value or what InitDefaults makes of it. It is part
+		// of the result like any other value and has to pass the validators.
+		v := tryInitDefaults(pointerize(t, baseType, reflect.Zero(baseType)))
+		if err := tryRecursiveValidate(v, opts.opts, opts.validators); err != nil {
+			return reflect.Value{}, raiseValidation(val.Context(), val.meta(), "", err)
+		}
+		return v, nil
 	}
 
 	var v reflect.Value
